@@ -1,18 +1,39 @@
 from runner import Property, Engine
 import opsgen
 
+# case kinds of the container engine that are integrated (model, proofs, drivers, generator)
+KINDS = [("arr", "Dsa", "DsaModel"), ("llist", "LList", "LListModel"), ("slist", "SList", "SListModel"),
+         ("ht", "Htable", "HtableModel"), ("buf", "Buf", "BufModel")]
+
 PROP = Property(
     pid="C19",
     properties_v="Properties/Properties_C19.v",
-    coq_targets=["Extract/Extract_Dsa.vo"],
-    engines=[Engine(name="dsa", c_srcs=["harness/dsa_drv.c"],
-                    ml_srcs=["ocaml/gen/DsaModel.ml", "ocaml/dsa_drv.ml"],
-                    gen=opsgen.gen, n_quick=1500, n_thorough=30000)],
+    coq_targets=["Extract/Extract_%s.vo" % x for (_, x, _) in KINDS],
+    engines=[Engine(name="dsa",
+                    c_srcs=["harness/dsa_drv.c"] + ["harness/dsa_%s.c" % k for (k, _, _) in KINDS],
+                    # the skip list draws its coin flips from ares_rand_bytes: replaced at link time by
+                    # a deterministic stream defined in harness/dsa_slist.c (no other kind uses it)
+                    wraps=["ares_rand_bytes"],
+                    ml_srcs=["ocaml/gen/%s.ml" % m for (_, _, m) in KINDS] + ["ocaml/dsa_reg.ml"]
+                            + ["ocaml/dsa_%s.ml" % k for (k, _, _) in KINDS] + ["ocaml/dsa_drv.ml"],
+                    gen=opsgen.gen, n_quick=2500, n_thorough=30000)],
     trusted_base=["Coq 8.16.1 kernel + coqc (vm_compute; no native_compute)",
                   "extraction (ExtrOcamlBasic only, no Extract Constant) + OCaml 4.13.1",
-                  "gen/regen.py constants (ARES__ARRAY_MIN, status codes) compiled against the working tree",
-                  "harness/dsa_drv.c, ocaml/dsa_drv.ml, gen/opsgen.py (correspondence check)",
-                  "clang 14 ASan/UBSan"],
-    assumptions=["containers are hand-modelled (coq/Dsa/*.v); the tie to the C code is the correspondence run"],
+                  "gen/regen.py constants (ARES__ARRAY_MIN, ARES__HTABLE_*, status codes) compiled against the working tree",
+                  "harness/dsa_drv.c + harness/dsa_<kind>.c, ocaml/dsa_drv.ml + ocaml/dsa_<kind>.ml, gen/opsgen*.py (correspondence check)",
+                  "harness/dsa_slist.c: link-time replacement of ares_rand_bytes by a deterministic stream",
+                  "byte buffer: the allocator never returns a block of 2^62 bytes or more (buf_alloc_answer)",
+                  "clang 14 ASan/UBSan/LSan"],
+    assumptions=["containers are hand-modelled (coq/Dsa/*.v); the tie to the C code is the correspondence run",
+                 "skip list: the comparison callback's sign is a total preorder (antisymmetric sign, transitive <=); coin flips are not modelled, theorems quantify over every level choice",
+                 "byte buffer: cursor functions (len, consume, tag, tag_rollback, tag_clear, tag_length, set_length, "
+                 "set_position, get_position, is_const, append_finish) are generated from the C source and used inside "
+                 "the model; sizes below 2^62, byte arguments are bytes (buf_op_ok)",
+                 "hash table: the hash function is any function compatible with the key equality (theorems quantify over it)"],
+    generated_fns=["ares_buf_len", "ares_buf_consume", "ares_buf_tag", "ares_buf_tag_rollback", "ares_buf_tag_clear",
+                   "ares_buf_tag_length", "ares_buf_set_length", "ares_buf_set_position", "ares_buf_get_position",
+                   "ares_buf_is_const", "ares_buf_append_finish",
+                   # read side: the hand model is proved equal to these (Dsa/Buf_gen_agree.v)
+                   "ares_buf_fetch_be16", "ares_buf_peek_byte", "ares_buf_fetch_bytes"],
     rule="random/boundary-directed operation sequences per container; non-trivial = at least two state-changing operations succeeded in the model; distinct by case text",
 )
